@@ -31,6 +31,10 @@ func (e *Engine) freshVar(p *Path, w int, kind string) *Term {
 	} else if e.vars[k].w != w {
 		unsup("input %d is drawn with different widths on different paths", k)
 	}
+	if k < len(e.pin) {
+		// debugging aid: symbolic run with the inputs pinned by assumptions
+		p.st.G = e.And(p.st.G, e.Eq(e.vars[k], e.Const(w, e.pin[k])))
+	}
 	return e.vars[k]
 }
 
@@ -153,6 +157,9 @@ func (e *Engine) intrinsic(p *Path, name string, args []Value, depth int) ([]Res
 		}
 		e.assume(p, e.Cmp(OpUle, v, e.Const(8, 1)))
 		return e.one(p, e.Eq(v, e.Const(8, 1))), true
+	case "vDump": // debugging aid: vDump(label string, v interface{})
+		fmt.Printf("DUMP %s G=%s : %s\n", e.strOf(p, args[0]), e.showTerm(p.st.G, 3), e.showValue(p.st, args[1], 4))
+		return e.one(p, nil), true
 	case "vNativeInit", "vLoadReplay":
 		return e.one(p, nil), true
 	case "vSymbolic":
@@ -280,4 +287,66 @@ func (e *Engine) concStr(st *State, v Value) (string, bool) {
 		b[k] = byte(t.val)
 	}
 	return string(b), true
+}
+
+func (e *Engine) showTerm(t *Term, depth int) string {
+	switch t.op {
+	case OpConst:
+		if t.w == 0 {
+			if t.val != 0 {
+				return "T"
+			}
+			return "F"
+		}
+		return fmt.Sprint(int64(t.val))
+	case OpVar:
+		return t.name
+	}
+	if depth <= 0 {
+		return fmt.Sprintf("t%d", t.id)
+	}
+	s := "(" + opName[t.op]
+	if t.op == OpExtract {
+		s = fmt.Sprintf("(ext%d:%d", t.hi, t.lo)
+	}
+	for _, a := range t.args {
+		s += " " + e.showTerm(a, depth-1)
+	}
+	return s + ")"
+}
+
+func (e *Engine) showValue(st *State, v Value, depth int) string {
+	switch x := v.(type) {
+	case *Term:
+		return e.showTerm(x, 4)
+	case Ptr:
+		s := "ptr{"
+		for _, al := range x.alts {
+			s += fmt.Sprintf("[%s]->o%d+%s%v ", e.showTerm(al.g, 3), al.obj, e.showTerm(al.off, 2), al.path)
+		}
+		return s + "}"
+	case SliceV:
+		s := fmt.Sprintf("slice(len=%s cap=%s %s)", e.showTerm(x.len, 3), e.showTerm(x.cap, 3), e.showValue(st, x.p, depth))
+		if depth > 0 && x.len.IsConst() && len(x.p.alts) > 0 {
+			s += "["
+			for k := 0; k < int(x.len.val) && k < 8; k++ {
+				s += e.showValue(st, e.elemAt(st, x.p, k), depth-1) + ", "
+			}
+			s += "]"
+		}
+		return s
+	case StructV:
+		s := "{"
+		for _, f := range x.f {
+			s += e.showValue(st, f, depth-1) + "; "
+		}
+		return s + "}"
+	case IfaceV:
+		s := "iface{"
+		for _, al := range x.alts {
+			s += fmt.Sprintf("[%s]%v:%s ", e.showTerm(al.g, 2), al.typ, e.showValue(st, al.val, depth-1))
+		}
+		return s + "}"
+	}
+	return fmt.Sprintf("%T", v)
 }
